@@ -1,7 +1,8 @@
 /-
 M6 (part 2) `Gen` — the value generators `generate_true` / `generate_false`
 (predicate/generator/{helpers,generate_true,generate_false}.py, *after* the fix diffs
-fixes/gen-*.diff, including the phase-2 ones gen-notin-fallback and gen-unhashable-set) as first-order generator states `G` with a pull semantics driven by a tape.
+fixes/gen-*.diff, including the phase-2 ones gen-notin-fallback and gen-unhashable-set and the
+clamp of gen-float-overflow at the edge of the double range) as first-order generator states `G` with a pull semantics driven by a tape.
 
 No import outside core Lean (compiled into `driver_gen`).
 
@@ -109,8 +110,60 @@ def nextDownNat (m : Nat) : Nat :=
 
 /-- `math.nextafter(x, inf)` for a finite double below the largest one. -/
 def nextUp (k : Int) : Int := if 0 ≤ k then (nextUpNat k.toNat : Int) else - (nextDownNat (-k).toNat : Int)
-/-- `math.nextafter(x, -inf)`. -/
+/-- `math.nextafter(x, -inf)` for a finite double above the smallest one. -/
 def nextDown (k : Int) : Int := - nextUp (-k)
+
+/-- `sys.float_info.max` = (2^53 − 1)·2^971 in float units. -/
+def maxF : Int := (2 ^ 53 - 1) * 2 ^ (971 + 1074)
+
+/-- A float that is not NaN: a finite number of float units, or an infinity.  The bounds
+`random_floats` works with (`math.nextafter` leaves the finite range at `±maxF`; `2 * bound`
+overflows beyond `maxF / 2`). -/
+inductive XF where
+  | fin (k : Int)
+  | inf (neg : Bool)
+  deriving Repr, Inhabited, DecidableEq
+
+namespace XF
+
+def val : XF → GVal
+  | .fin k => .flt k
+  | .inf n => .inf n
+
+/-- `a <= b` on floats. -/
+def le : XF → XF → Bool
+  | .inf true, _ => true
+  | _, .inf false => true
+  | .fin a, .fin b => decide (a ≤ b)
+  | _, _ => false
+
+/-- `a < b`. -/
+def lt (a b : XF) : Bool := !(le b a)
+
+/-- Python `min(a, b)` / `max(a, b)` (the first argument unless the second is strictly better). -/
+def min (a b : XF) : XF := if lt b a then b else a
+def max (a b : XF) : XF := if lt a b then b else a
+
+/-- `2 * x` in double arithmetic: exact (a change of exponent), or the infinity of the same
+sign once the exact product lies beyond `±maxF`. -/
+def dbl : XF → XF
+  | .fin k => if maxF < 2 * k then .inf false else if 2 * k < -maxF then .inf true else .fin (2 * k)
+  | .inf n => .inf n
+
+def neg : XF → XF
+  | .fin k => .fin (-k)
+  | .inf n => .inf (!n)
+
+end XF
+
+/-- `math.nextafter(x, math.inf)`: `+inf` at (or beyond) the largest double, `-maxF` at `-inf`. -/
+def nextUpX : XF → XF
+  | .fin k => if maxF ≤ k then .inf false else .fin (nextUp k)
+  | .inf true => .fin (-maxF)
+  | .inf false => .inf false
+
+/-- `math.nextafter(x, -math.inf)`. -/
+def nextDownX (x : XF) : XF := (nextUpX x.neg).neg
 
 /-- `-1e-6`, `1e6`, `3.14` in float units (`float.as_integer_ratio`: m / 2^e). -/
 def cLo : Int := -(4722366482869645 * 2 ^ (1074 - 72))
@@ -135,7 +188,7 @@ inductive G where
   | rep (v : GVal)                          -- `itertools.repeat(v)`
   | cycBool (b : Bool)                      -- `cycle((False, True))`
   | ints (lo hi : Option Int) (ph j : Nat)  -- `random_ints`: window 10^ph, `j` draws made in it
-  | floats (lo hi : Int) (ph : Nat)         -- `random_floats` with resolved bounds: lower, upper, then uniform
+  | floats (lo hi : XF) (ph : Nat)          -- `random_floats` with resolved bounds: lower, upper, then uniform (or lower)
   | strings                                 -- `random_strings()`
   | uuids                                   -- `random_uuids()`
   | nowOnce                                 -- `random_datetimes()`
@@ -183,18 +236,21 @@ def takeWith (step : G → Tape → Res) : Nat → G → Tape → TakeRes
 
 /-- `random_anys()` = `interleave(random_ints(), random_strings(), random_floats())`. -/
 def anys : G :=
-  .flat (.zipCons (.ints none none 0 0) (.zipCons .strings (.zipCons (.floats cLo cHi 0) .zipNil))) []
+  .flat (.zipCons (.ints none none 0 0) (.zipCons .strings (.zipCons (.floats (.fin cLo) (.fin cHi) 0) .zipNil))) []
 
-/-- `random_floats(lower=…, upper=…)` with the defaults of fixes/gen-float-defaults.diff. -/
-def floatsFrom (lower upper : Option Int) : G :=
+/-- `random_floats(lower=…, upper=…)` with the defaults of fixes/gen-float-defaults.diff as clamped by
+fixes/gen-float-overflow.diff:
+`lower = -1e-6 if upper is None else min(upper, max(min(-1e-6, 2 * upper), -sys.float_info.max))`,
+`upper = max(lower, min(max(1e6, 2 * lower), sys.float_info.max))`. -/
+def floatsFrom (lower upper : Option XF) : G :=
   let lo := match lower with
     | some l => l
     | none => match upper with
-      | none => cLo
-      | some u => min cLo (2 * u)
+      | none => .fin cLo
+      | some u => XF.min u (XF.max (XF.min (.fin cLo) u.dbl) (.fin (-maxF)))
   let hi := match upper with
     | some u => u
-    | none => max cHi (2 * lo)
+    | none => XF.max lo (XF.min (XF.max (.fin cHi) lo.dbl) (.fin maxF))
   .floats lo hi 0
 
 /-- `random_ints`: the point of `[lower, upper]` nearest to zero (fixes/gen-int-windows.diff). -/
@@ -293,11 +349,18 @@ def pull : Nat → G → Tape → Res
         else pull fuel (.ints lo hi ((ph + 1) % 3) 0) t
     | .floats lo hi ph =>
       match ph with
-      | 0 => .yield (.flt lo) (.floats lo hi 1) t
-      | 1 => .yield (.flt hi) (.floats lo hi 2) t
+      | 0 => .yield lo.val (.floats lo hi 1) t
+      | 1 => .yield hi.val (.floats lo hi 2) t
       | _ =>
-        let (a, t') := t.uniform lo hi
-        .yield (.flt a) (.floats lo hi 2) t'
+        -- `yield random.uniform(lower, upper) if lower < upper else lower`
+        if lo.lt hi then
+          match lo, hi with
+          | .fin a, .fin b =>
+            let (x, t') := t.uniform a b
+            .yield (.flt x) (.floats lo hi 2) t'
+          | _, _ => .error (.other 2)   -- `uniform` with an infinite end (inf or nan): outside the model; not reachable
+                                        -- from a finite comparison bound (`Bounded`, `floatsFrom_okPair`)
+        else .yield lo.val (.floats lo hi 2) t
     | .strings =>
       let (n, t1) := t.randint 0 10
       let (is, t2) := t1.choices n.toNat
@@ -474,10 +537,11 @@ def byFirstMember (p : GP) (neg : Bool) : List GVal → G
 
 /-- Generator for a comparison `x ? v` given the int / float bounds to use. -/
 def cmpGen (p : GP) (neg : Bool) (v : GVal) (days : Int → List GVal)
-    (flo fhi : Int → Option Int) (ilo ihi : Int → Option Int) : G :=
+    (flo fhi : XF → Option XF) (ilo ihi : Int → Option Int) : G :=
   match v with
   | .dt a => .ofList (days a)
-  | .flt k => floatsFrom (flo k) (fhi k)
+  | .flt k => floatsFrom (flo (.fin k)) (fhi (.fin k))
+  | .inf n => floatsFrom (flo (.inf n)) (fhi (.inf n))    -- `case float():` also sees an infinite bound
   | .str _ => .filter p neg .strings
   | .uuid _ => .filter p neg .uuids
   | v => match asInt v with
@@ -492,10 +556,10 @@ def genTrue : GP → G
   | .eq v => .rep v
   | .ne v => .ofList [.bool (!truthy v)]
   | .ge v => cmpGen (.ge v) false v (fun a => dayList a 1 0) some (fun _ => none) some (fun _ => none)
-  | .gt v => cmpGen (.gt v) false v (fun a => dayList a 1 1) (fun k => some (nextUp k)) (fun _ => none)
+  | .gt v => cmpGen (.gt v) false v (fun a => dayList a 1 1) (fun x => some (nextUpX x)) (fun _ => none)
       (fun n => some (n + 1)) (fun _ => none)
   | .le v => cmpGen (.le v) false v (fun a => dayList a (-1) 0) (fun _ => none) some (fun _ => none) some
-  | .lt v => cmpGen (.lt v) false v (fun a => dayList a (-1) 1) (fun _ => none) (fun k => some (nextDown k))
+  | .lt v => cmpGen (.lt v) false v (fun a => dayList a (-1) 1) (fun _ => none) (fun x => some (nextDownX x))
       (fun _ => none) (fun n => some (n - 1))
   | .isin s => .ofList s
   | .notin s => byFirstMember (.notin s) false s
@@ -545,7 +609,7 @@ def genFalse : GP → Option G
   | .ff => some anys
   | .eq v => some (.filter (.eq v) true anys)
   | .ne v => some (.ofList [v])
-  | .ge v => some (cmpGen (.ge v) true v (fun a => dayList a (-1) 1) (fun _ => none) (fun k => some (nextDown k))
+  | .ge v => some (cmpGen (.ge v) true v (fun a => dayList a (-1) 1) (fun _ => none) (fun x => some (nextDownX x))
       (fun _ => none) (fun n => some (n - 1)))
   | .gt v => some (cmpGen (.gt v) true v (fun a => dayList a (-1) 0) (fun _ => none) some (fun _ => none) some)
   | .falsy => some (.filter .truthy false anys)
